@@ -103,6 +103,7 @@ type WorkerResult struct {
 	Notes       map[string]string `json:"notes,omitempty"`
 	Complete    bool             `json:"complete"`
 	LastIndex   int64            `json:"last_index"`
+	Final       bool             `json:"final"`
 	CapsHit     []string         `json:"caps_hit,omitempty"`
 }
 
@@ -135,6 +136,9 @@ type RunCtx struct {
 	expired  bool
 	pbuf     [8]byte
 	pmap     []byte
+	skip     map[int64]bool
+	lastCkpt time.Time
+	ResultPath string
 	untracked int64
 }
 
@@ -150,6 +154,8 @@ func NewRunCtx(prop, tier string, shard, nshards int, deadline time.Time) *RunCt
 	rc.nontriv = map[[8]byte]struct{}{}
 	rc.devPerSig = map[string]int{}
 	rc.res.Complete = true
+	rc.skip = map[int64]bool{}
+	rc.lastCkpt = time.Now()
 	return rc
 }
 
@@ -201,8 +207,32 @@ func (rc *RunCtx) Take() bool {
 	if rc.pmap != nil {
 		binary.LittleEndian.PutUint64(rc.pmap, uint64(rc.idx))
 	}
+	if rc.skip[rc.idx] {
+		return false
+	}
 	rc.res.LastIndex = rc.idx
+	if rc.idx&0xff == 0 && rc.ResultPath != "" && time.Since(rc.lastCkpt) > 8*time.Second {
+		rc.WriteResult(false)
+	}
 	return true
+}
+
+// WriteResult writes the cumulative result (atomically) to ResultPath.
+func (rc *RunCtx) WriteResult(final bool) {
+	rc.lastCkpt = time.Now()
+	r := rc.Result()
+	r.Final = final
+	b, _ := json.Marshal(r)
+	tmp := rc.ResultPath + ".tmp"
+	if os.WriteFile(tmp, b, 0o644) == nil {
+		os.Rename(tmp, rc.ResultPath)
+	}
+}
+
+func (rc *RunCtx) SetSkip(idxs []int64) {
+	for _, i := range idxs {
+		rc.skip[i] = true
+	}
 }
 
 // Skip advances the counter by n without running anything (n cases known not to be
@@ -344,7 +374,7 @@ func (rc *RunCtx) Result() *WorkerResult {
 		keys = append(keys, hex.EncodeToString(k[:]))
 	}
 	rc.res.NontrivKeys = keys
-	rc.res.Counters["nontrivial_evaluations_not_deduplicated"] += rc.untracked
+	rc.res.Counters["nontrivial_evaluations_not_deduplicated"] = rc.untracked
 	return &rc.res
 }
 
